@@ -100,6 +100,7 @@ def gen(prop, stream, tier, avoid):
             op["spacing"] = rng.randrange(4)
             op["update_delta"] = rng.chance(0.5)
             op["to"] = rng.pick(["str", "file"])
+            op["obj_opts"] = rng.pick([[], [], ["vertex_normals"], ["parametric_vertices"], ["vertex_normals", "parametric_vertices"]])
             op["faults"] = []
             if op["to"] == "file" and fl.chance(knobs["fault_p"]):
                 op["faults"].append({"kind": fl.pick(["open_fails", "write_fails", "close_fails"]), "nth": 1, "errno": fl.pick([5, 28])})
@@ -300,7 +301,7 @@ def _check_trimmed(ctx, V, F, uvs, what, sig, sample, trim, spacing):
 # independent mesh file readers (R5)
 
 def parse_obj(text):
-    V, F = [], []
+    V, F, extra = [], [], {"vn": [], "vp": []}
     for ln in text.split("\n"):
         tk = ln.split()
         if not tk or tk[0].startswith("#"):
@@ -309,7 +310,9 @@ def parse_obj(text):
             V.append([float(x) for x in tk[1:4]])
         elif tk[0] == "f":
             F.append([int(x.split("/")[0]) - 1 for x in tk[1:4]])
-    return V, F, None
+        elif tk[0] in ("vn", "vp"):
+            extra[tk[0]].append([float(x) for x in tk[1:]])
+    return V, F, extra
 
 
 def parse_off(text):
@@ -673,6 +676,9 @@ def _do_export(ctx, g, disk, op, idx, st, i, cont, members, world, about_to_obse
     common = [d for d in range(1, 12) if all((a - 1) % d == 0 and (b - 1) % d == 0 for a, b in sizes)] or [1]
     sp = common[op["spacing"] % len(common)]
     kw = {"vertex_spacing": sp, "update_delta": op["update_delta"]}
+    if fmt == "obj":
+        for o_ in op.get("obj_opts", []):
+            kw[o_] = True
     for _, s_ in surfs:
         about_to_observe(s_)
     was_tessellated = [bool(o.tessellator.is_tessellated()) for o, _ in surfs]
@@ -736,8 +742,9 @@ def _do_export(ctx, g, disk, op, idx, st, i, cont, members, world, about_to_obse
             expF.append([loc[x] + len(expV) for x in t])
         expV += [v[2] for v in V]
     try:
+        obj_extra = None
         if fmt == "obj":
-            fV, fF, _ = parse_obj(content)
+            fV, fF, obj_extra = parse_obj(content)
         elif fmt == "off":
             fV, fF, _ = parse_off(content)
         elif fmt == "stl_ascii":
@@ -755,6 +762,17 @@ def _do_export(ctx, g, disk, op, idx, st, i, cont, members, world, about_to_obse
         ok, why = close(fV, expV, 1e-12)
         if not ok:
             ctx.fail("file_mismatch", "export_%s vertex positions differ from the mesh: %s" % (fmt, why), check="positions", **sig)
+        if obj_extra is not None:
+            opts = op.get("obj_opts", [])
+            for key, flag in (("vp", "parametric_vertices"), ("vn", "vertex_normals")):
+                if flag in opts and len(obj_extra[key]) != len(expV):
+                    ctx.fail("file_mismatch", "export_obj(%s=True) wrote %d '%s' lines for %d vertices" % (flag, len(obj_extra[key]), key, len(expV)),
+                             check="counts", **sig)
+            if "parametric_vertices" in opts:
+                uvs_ = [uv for o, _ in surfs for uv in ([list(v.uv) for v in o.tessellator.vertices])]
+                ok, why = close(obj_extra["vp"], uvs_, 1e-12, 1.0)
+                if not ok:
+                    ctx.fail("file_mismatch", "export_obj parameter-space vertices differ from the mesh's stored parameters: %s" % why, check="positions", **sig)
         if fF != expF:
             bad = next(kk for kk, (a, b) in enumerate(zip(fF, expF)) if a != b)
             ctx.fail("file_mismatch", "export_%s face %d is %r in the file, %r in the mesh" % (fmt, bad, fF[bad], expF[bad]), check="faces", **sig)
